@@ -40,6 +40,7 @@ import (
 	"github.com/osrg/gobgp/v4/pkg/apiutil"
 	"github.com/osrg/gobgp/v4/pkg/config/oc"
 	"github.com/osrg/gobgp/v4/pkg/packet/bgp"
+	"github.com/osrg/gobgp/v4/pkg/packet/bmp"
 	"github.com/osrg/gobgp/v4/pkg/packet/mrt"
 	"github.com/osrg/gobgp/v4/pkg/server"
 )
@@ -91,6 +92,7 @@ type fakePeer struct {
 	done     chan struct{}
 	lastOpen *bgp.BGPMessage
 	gate     chan struct{} // non-nil: the peer has stopped reading (TCP window closed) until the channel is closed
+	old      bool          // the session runs without the 4-octet AS capability: AS_PATH in 2-octet encoding both ways
 }
 
 func attrSummary(attrs []bgp.PathAttributeInterface) string {
@@ -267,6 +269,162 @@ type world struct {
 	watchMu  sync.Mutex
 	watching bool
 	watch    map[string]string // prefix -> "source attrs": the best-path stream replayed (with the global option "watch")
+	station  *bmpStation
+	handles  map[string]any // peer name -> the server's peer object remembered by a (handle ...) step
+}
+
+// bmpStation is a BMP monitoring station on a loopback TCP socket. Its goroutines run OUTSIDE the synctest bubble
+// (real network reads are not durably blocking); the scenario asks it for what it has received over channels that
+// do not belong to the bubble either.
+type bmpStation struct {
+	ln   net.Listener
+	mu   sync.Mutex
+	data []byte
+	req  chan struct{}
+	resp chan []byte
+}
+
+func newBmpStation() (*bmpStation, error) {
+	ln, err := net.Listen("tcp", "127.0.0.1:0")
+	if err != nil {
+		return nil, err
+	}
+	st := &bmpStation{ln: ln, req: make(chan struct{}), resp: make(chan []byte)}
+	go func() {
+		for {
+			c, err := ln.Accept()
+			if err != nil {
+				return
+			}
+			go func() {
+				defer c.Close()
+				buf := make([]byte, 1<<16)
+				for {
+					n, err := c.Read(buf)
+					st.mu.Lock()
+					st.data = append(st.data, buf[:n]...)
+					st.mu.Unlock()
+					if err != nil {
+						return
+					}
+				}
+			}()
+		}
+	}()
+	go func() {
+		for range st.req {
+			// everything the client wrote is in the socket already; wait (in real time) until the reader has it all
+			last, quiet := -1, 0
+			for quiet < 3 {
+				time.Sleep(10 * time.Millisecond)
+				st.mu.Lock()
+				n := len(st.data)
+				st.mu.Unlock()
+				if n == last {
+					quiet++
+				} else {
+					last, quiet = n, 0
+				}
+			}
+			st.mu.Lock()
+			d := append([]byte(nil), st.data...)
+			st.mu.Unlock()
+			st.resp <- d
+		}
+	}()
+	return st, nil
+}
+
+func (st *bmpStation) close() {
+	st.ln.Close()
+	close(st.req)
+}
+
+// bmpRecords decodes the station's byte stream the way a station does: record by record (SplitBMP), each UPDATE of a
+// Route Monitoring record as the per-peer header says (A flag: 2-octet AS_PATH; Loc-RIB instance: path identifiers)
+func bmpRecords(data []byte) string {
+	var recs []string
+	options := func(ph bmp.BMPPeerHeader) []*bgp.MarshallingOption {
+		o := &bgp.MarshallingOption{Use2ByteAS: ph.Flags&bmp.BMP_PEER_FLAG_TWO_AS != 0}
+		if ph.PeerType == bmp.BMP_PEER_TYPE_LOCAL_RIB {
+			o.AddPath = map[bgp.Family]bgp.BGPAddPathMode{bgp.RF_IPv4_UC: bgp.BGP_ADD_PATH_BOTH, bgp.RF_IPv6_UC: bgp.BGP_ADD_PATH_BOTH}
+		}
+		return []*bgp.MarshallingOption{o}
+	}
+	for len(data) > 0 {
+		adv, tok, err := bmp.SplitBMP(data, true)
+		if err != nil || adv == 0 || tok == nil {
+			recs = append(recs, "(unsplittable)")
+			break
+		}
+		data = data[adv:]
+		m, err := bmp.ParseBMPMessageWithOptions(tok, options)
+		if m == nil {
+			recs = append(recs, "(unreadable header)")
+			continue
+		}
+		ph := m.PeerHeader
+		pa := "-"
+		if ph.PeerAddress.IsValid() {
+			pa = ph.PeerAddress.String()
+		}
+		who := fmt.Sprintf("%d %02x %s %d %s", ph.PeerType, ph.Flags, pa, ph.PeerAS, ph.PeerBGPID)
+		if err != nil {
+			recs = append(recs, fmt.Sprintf("(unreadable %d %s %s)", m.Header.Type, who, strings.ReplaceAll(err.Error(), " ", "_")))
+			continue
+		}
+		switch b := m.Body.(type) {
+		case *bmp.BMPInitiation:
+			recs = append(recs, "(init)")
+		case *bmp.BMPTermination:
+			recs = append(recs, "(term)")
+		case *bmp.BMPPeerUpNotification:
+			so, ro := "-", "-"
+			if b.SentOpenMsg != nil {
+				if o, ok := b.SentOpenMsg.Body.(*bgp.BGPOpen); ok {
+					so = fmt.Sprintf("%d/%s", o.MyAS, o.ID)
+				}
+			}
+			if b.ReceivedOpenMsg != nil {
+				if o, ok := b.ReceivedOpenMsg.Body.(*bgp.BGPOpen); ok {
+					ro = fmt.Sprintf("%d/%s", o.MyAS, o.ID)
+				}
+			}
+			recs = append(recs, fmt.Sprintf("(peerup %s %s %s)", who, so, ro))
+		case *bmp.BMPPeerDownNotification:
+			recs = append(recs, fmt.Sprintf("(peerdown %s %d)", who, b.Reason))
+		case *bmp.BMPRouteMonitoring:
+			u, ok := b.BGPUpdate.Body.(*bgp.BGPUpdate)
+			if !ok {
+				recs = append(recs, fmt.Sprintf("(rm-not-an-update %s)", who))
+				continue
+			}
+			var items []string
+			for _, n := range u.WithdrawnRoutes {
+				items = append(items, fmt.Sprintf("(w %s#%d)", n.NLRI.String(), n.ID))
+			}
+			as := attrSummary(u.PathAttributes)
+			for _, n := range u.NLRI {
+				items = append(items, fmt.Sprintf("(a %s#%d %s)", n.NLRI.String(), n.ID, as))
+			}
+			for _, a := range u.PathAttributes {
+				switch x := a.(type) {
+				case *bgp.PathAttributeMpReachNLRI:
+					for _, n := range x.Value {
+						items = append(items, fmt.Sprintf("(a %s#%d %s)", n.NLRI.String(), n.ID, as))
+					}
+				case *bgp.PathAttributeMpUnreachNLRI:
+					for _, n := range x.Value {
+						items = append(items, fmt.Sprintf("(w %s#%d)", n.NLRI.String(), n.ID))
+					}
+				}
+			}
+			recs = append(recs, fmt.Sprintf("(rm %s %s)", who, strings.Join(items, " ")))
+		default:
+			recs = append(recs, fmt.Sprintf("(other %d)", m.Header.Type))
+		}
+	}
+	return strings.Join(recs, " ")
 }
 
 func v4(s string) netip.Addr { return netip.MustParseAddr(s) }
@@ -373,6 +531,11 @@ func (w *world) neighbor(n sx.Node) *oc.Neighbor {
 }
 
 func (w *world) addPeer(n sx.Node) {
+	if ok, _ := hasOpt(n, 3, "dyn"); ok {
+		// a dynamic neighbour: not configured; the server creates it from the peer group when the connection arrives
+		w.peers[n.At(0).Atom] = &fakePeer{name: n.At(0).Atom, addr: v4(n.At(1).Atom), as: uint32(n.At(2).Uint()), id: v4(n.At(1).Atom)}
+		return
+	}
 	nc := w.neighbor(n)
 	if err := w.s.AddPeer(context.Background(), &api.AddPeerRequest{Peer: oc.NewPeerFromConfigStruct(nc)}); err != nil {
 		w.out = append(w.out, "(addpeer-error "+strings.ReplaceAll(err.Error(), " ", "_")+")")
@@ -479,6 +642,12 @@ func (w *world) mkOpen(p *fakePeer, n sx.Node) (*bgp.BGPMessage, uint16) {
 		caps = append(caps, bgp.NewCapMultiProtocol(bgp.RF_RTC_UC))
 	}
 	popt := &bgp.MarshallingOption{AddPath: map[bgp.Family]bgp.BGPAddPathMode{}}
+	p.old = false
+	if ok, _ := hasOpt(n, 2, "old"); ok { // a speaker without the 4-octet AS capability
+		caps = caps[:2]
+		popt.Use2ByteAS = true
+		p.old = true
+	}
 	defer func() {
 		p.mu.Lock()
 		p.opt = popt
@@ -538,7 +707,9 @@ func (w *world) mkOpen(p *fakePeer, n sx.Node) (*bgp.BGPMessage, uint16) {
 		var k int
 		fmt.Sscan(v, &k)
 		as2 = uint16(k)
-		caps[2] = bgp.NewCapFourOctetASNumber(uint32(k))
+		if !p.old {
+			caps[2] = bgp.NewCapFourOctetASNumber(uint32(k))
+		}
 	}
 	open, _ := bgp.NewBGPOpenMessage(as2, hold, oid, []bgp.OptionParameterInterface{bgp.NewOptionParameterCapability(caps)})
 	if ok, v := hasOpt(n, 2, "ver"); ok {
@@ -569,6 +740,10 @@ func routeAttrs(r sx.Node, nhop string) []bgp.PathAttributeInterface {
 				set = append(set, k)
 			}
 			params = append(params, bgp.NewAs4PathParam(bgp.BGP_ASPATH_ATTR_TYPE_SET, set))
+			continue
+		}
+		if a.Atom == "|" { // the AS_SEQUENCE ends here, the next numbers start another one
+			flush()
 			continue
 		}
 		as = append(as, uint32(a.Uint()))
@@ -620,7 +795,24 @@ func (w *world) upd(n sx.Node) {
 		if r.At(0).Atom == "w" {
 			m = bgp.NewBGPUpdateMessage([]bgp.PathNLRI{pathNLRI(r.At(1).Atom, r.At(2).Uint())}, nil, nil)
 		} else {
-			m = bgp.NewBGPUpdateMessage(nil, routeAttrs(r, p.addr.String()), []bgp.PathNLRI{pathNLRI(r.At(1).Atom, r.At(2).Uint())})
+			attrs := routeAttrs(r, p.addr.String())
+			if p.old {
+				// the 2-octet encoding of the AS_PATH such a session uses (the scenarios keep its AS numbers below 65536)
+				for i, a := range attrs {
+					if ap, ok := a.(*bgp.PathAttributeAsPath); ok {
+						var ps []bgp.AsPathParamInterface
+						for _, seg := range ap.Value {
+							var as []uint16
+							for _, x := range seg.GetAS() {
+								as = append(as, uint16(x))
+							}
+							ps = append(ps, bgp.NewAsPathParam(seg.GetType(), as))
+						}
+						attrs[i] = bgp.NewPathAttributeAsPath(ps)
+					}
+				}
+			}
+			m = bgp.NewBGPUpdateMessage(nil, attrs, []bgp.PathNLRI{pathNLRI(r.At(1).Atom, r.At(2).Uint())})
 		}
 		p.send(m, p.sendOpt)
 	}
@@ -1011,6 +1203,15 @@ func (w *world) step(n sx.Node) {
 		} else {
 			w.out = append(w.out, "(mrtdump "+strings.Join(recs, " ")+")")
 		}
+	case "bmpread":
+		// what the BMP station has received so far, decoded as a station decodes it
+		synctest.Wait()
+		if w.station == nil {
+			w.out = append(w.out, "(bmp no-station)")
+			return
+		}
+		w.station.req <- struct{}{}
+		w.out = append(w.out, "(bmp "+bmpRecords(<-w.station.resp)+")")
 	case "wait":
 		synctest.Wait()
 	case "sleep":
@@ -1036,7 +1237,8 @@ func (w *world) step(n sx.Node) {
 	case "apiadd":
 		r := n.At(1)
 		nl, _ := bgp.NewIPAddrPrefix(netip.MustParsePrefix(r.At(1).Atom))
-		resp, err := w.s.AddPath(apiutil.AddPathRequest{Paths: []*apiutil.Path{{Family: bgp.RF_IPv4_UC, Nlri: nl, Attrs: routeAttrs(r, "0.0.0.0")}}})
+		niw := n.Len() > 2 && n.At(2).Atom == "niw" // (apiadd ROUTE niw): flagged no-implicit-withdraw
+		resp, err := w.s.AddPath(apiutil.AddPathRequest{Paths: []*apiutil.Path{{Family: bgp.RF_IPv4_UC, Nlri: nl, Attrs: routeAttrs(r, "0.0.0.0"), NoImplicitWithdraw: niw}}})
 		if err != nil {
 			w.out = append(w.out, "(apiadd-error)")
 		} else if len(resp) == 1 && resp[0].Error == nil {
@@ -1071,6 +1273,29 @@ func (w *world) step(n sx.Node) {
 	case "reset":
 		if p := w.peers[n.At(1).Atom]; p != nil {
 			w.s.ResetPeer(context.Background(), &api.ResetPeerRequest{Address: p.addr.String()})
+		}
+	case "handle":
+		// remember the peer object registered for this address now
+		synctest.Wait()
+		if p := w.peers[n.At(1).Atom]; p != nil {
+			if w.handles == nil {
+				w.handles = map[string]any{}
+			}
+			w.handles[p.name] = w.s.VerifPeerPtr(p.addr.String())
+			w.out = append(w.out, "(handle "+p.name+" "+sx.B(w.handles[p.name] != nil).String()+")")
+		}
+	case "latedown":
+		// the session-down event of the remembered peer object is handled only now (its FSM goroutine was waiting for the lock)
+		if p := w.peers[n.At(1).Atom]; p != nil && w.handles[p.name] != nil {
+			w.s.VerifLateSessionDown(w.handles[p.name])
+		}
+	case "listed":
+		// is a peer with this address known to the server (ListPeer)?
+		synctest.Wait()
+		if p := w.peers[n.At(1).Atom]; p != nil {
+			k := 0
+			w.s.ListPeer(context.Background(), &api.ListPeerRequest{Address: p.addr.String()}, func(*api.Peer) { k++ })
+			w.out = append(w.out, fmt.Sprintf("(listed %s %d)", p.name, k))
 		}
 	case "gcount":
 		// goroutines alive now (the whole process: harness goroutines included, they are constant per fake peer)
@@ -1232,6 +1457,14 @@ func runScenario(t *testing.T, line string) (out string) {
 	}()
 	ns := sx.MustParse(line)
 	sc := ns[0]
+	var station *bmpStation
+	if ok, _ := hasOpt(sc.At(1), 3, "bmp"); ok {
+		var err error
+		if station, err = newBmpStation(); err != nil {
+			return "error bmp-station " + strings.ReplaceAll(err.Error(), " ", "_")
+		}
+		defer station.close()
+	}
 	synctest.Test(t, func(t *testing.T) {
 		g := sc.At(1)
 		var s *server.BgpServer
@@ -1246,6 +1479,30 @@ func runScenario(t *testing.T, line string) (out string) {
 		if err := s.StartBgp(context.Background(), &api.StartBgpRequest{Global: global}); err != nil {
 			w.out = append(w.out, "(startbgp-error)")
 			return
+		}
+		if ok, v := hasOpt(g, 3, "dyn"); ok { // dyn=<peer AS>: a peer group with the dynamic-neighbour prefix 10.0.0.0/24
+			var as uint32
+			fmt.Sscan(v, &as)
+			err := s.AddPeerGroup(context.Background(), &api.AddPeerGroupRequest{PeerGroup: &api.PeerGroup{
+				Conf: &api.PeerGroupConf{PeerGroupName: "dyn", PeerAsn: as},
+				AfiSafis: []*api.AfiSafi{{Config: &api.AfiSafiConfig{Family: &api.Family{Afi: api.Family_AFI_IP, Safi: api.Family_SAFI_UNICAST}, Enabled: true}}}}})
+			if err == nil {
+				err = s.AddDynamicNeighbor(context.Background(), &api.AddDynamicNeighborRequest{DynamicNeighbor: &api.DynamicNeighbor{Prefix: "10.0.0.0/24", PeerGroup: "dyn"}})
+			}
+			if err != nil {
+				w.out = append(w.out, "(dyn-error "+strings.ReplaceAll(err.Error(), " ", "_")+")")
+				return
+			}
+		}
+		if ok, v := hasOpt(g, 3, "bmp"); ok { // bmp=pre|post|local|all
+			pol := map[string]api.AddBmpRequest_MonitoringPolicy{"pre": api.AddBmpRequest_MONITORING_POLICY_PRE, "post": api.AddBmpRequest_MONITORING_POLICY_POST,
+				"local": api.AddBmpRequest_MONITORING_POLICY_LOCAL, "all": api.AddBmpRequest_MONITORING_POLICY_ALL}[v]
+			w.station = station
+			if err := s.AddBmp(context.Background(), &api.AddBmpRequest{Address: "127.0.0.1", Port: uint32(station.ln.Addr().(*net.TCPAddr).Port), Policy: pol}); err != nil {
+				w.out = append(w.out, "(addbmp-error)")
+				return
+			}
+			synctest.Wait()
 		}
 		if ok, _ := hasOpt(g, 3, "watch"); ok {
 			// a consumer of the best-path stream (what FIB / BMP / MRT writers see): replay it into a table
@@ -1292,6 +1549,10 @@ func runScenario(t *testing.T, line string) (out string) {
 			if p.conn != nil {
 				p.conn.Close()
 			}
+		}
+		if w.station != nil {
+			s.DeleteBmp(context.Background(), &api.DeleteBmpRequest{Address: "127.0.0.1", Port: uint32(w.station.ln.Addr().(*net.TCPAddr).Port)})
+			synctest.Wait()
 		}
 		s.Stop()
 		synctest.Wait()
